@@ -61,7 +61,7 @@ Section Run.
         do armed <- match x with TList l => map_opt get_nat l | _ => None end;
         let '(s', r) := call current_w DirSer given' md'' (fun s1 => do_ser s1 armed) s in
         Some (s', tcon "R" [match r with
-                            | Return v => tcon "Return" [tsval (match f' with FYaml => sort_all v | _ => v end)]
+                            | Return v => tcon "Return" [tdig H (match f' with FYaml => sort_all v | _ => v end)]
                             | Raise => tcon "Raise" []
                             end; term_of_slots s'])
       else if name_is k "Deser" then
@@ -95,7 +95,7 @@ Definition run_C16 (H : pystr -> pystr) (t : term) : term :=
       if negb (wf_node ct n && props_declared pt n) then terr "C16: tree does not conform to the class table"
       else
         match do_ser H ct pt n slots0 [], exec_hist H ct pt n slots0 calls with
-        | Return fresh, Some obs => tcon "Hist" [tsval fresh; TList obs]
+        | Return fresh, Some obs => tcon "Hist" [tdig H fresh; TList obs]
         | _, _ => terr "C16: undecodable call or inadmissible tree"
         end
     | _, _, _ => terr "C16: cannot decode class table, property table or tree"
